@@ -41,7 +41,7 @@ def info(tier):
         "required_cells": [f"family:{f}" for f in NG.FAMILIES] + ["sense:min", "sense:max", "method:auto", "method:SLSQP",
                                                                    "method:trust-constr", "method:L-BFGS-B", "method:BFGS",
                                                                    "wiring:fun", "wiring:jac", "wiring:hess", "wiring:cfun", "wiring:cjac",
-                                                                   "wiring:bounds", "wiring:x0", "x0:default", "x0:explicit", "end-to-end", "re-solve", "staged-model", "parameters:first-solve", "parameters:solve-after-set", "deep-accumulated-objective"],
+                                                                   "wiring:bounds", "wiring:x0", "x0:default", "x0:explicit", "end-to-end", "re-solve", "staged-model", "constraints:single-variable-only", "parameters:first-solve", "parameters:solve-after-set", "deep-accumulated-objective"],
         "assumptions": [
             "SciPy's solvers are trusted; only optyx's use of them is judged",
             "end-to-end verdicts only where raw SciPy with reference callables itself converges to the manufactured optimum (else non-comparable)",
@@ -225,13 +225,16 @@ def run_problem(prob, method, x0mode, rec, rng, seams):
             bad("wiring:wrong-number-of-constraints", got=len(cl), want=len(rels))
 
     # ---- end-to-end against raw SciPy with reference callables --------------
-    if rels and used_method not in ("SLSQP", "trust-constr", "COBYLA"):
-        rec.noncomp["method-ignores-constraints"] += 1
-        return
     has_bounds = any(lb is not None or ub is not None for lb, ub in decl_bounds)
-    if has_bounds and used_method not in BOUNDS_METHODS:
-        rec.noncomp["method-ignores-bounds"] += 1
-        return
+    raw_method = used_method
+    if (rels and used_method not in ("SLSQP", "trust-constr", "COBYLA")) or (has_bounds and used_method not in BOUNDS_METHODS):
+        if method != "auto":
+            # the user asked for a method that ignores constraints / bounds: the user's choice, not judged
+            rec.noncomp["requested-method-ignores-constraints-or-bounds"] += 1
+            return
+        # "auto" is optyx's own choice: the reference is a direct SciPy call with a method that can handle the model
+        raw_method = "SLSQP"
+        rec.events["auto-picked-a-method-that-ignores-part-of-the-model:" + str(used_method)] += 1
 
     def rf(x):
         with np.errstate(all="ignore"):
@@ -263,9 +266,9 @@ def run_problem(prob, method, x0mode, rec, rng, seams):
     try:
         with warnings.catch_warnings():
             warnings.simplefilter("ignore")
-            raw = seams.orig_minimize(rf, want_x0.copy(), method=used_method, jac=rg,
-                                      hess=rh if used_method == "trust-constr" else None,
-                                      bounds=rb if (has_bounds and used_method in BOUNDS_METHODS) else None,
+            raw = seams.orig_minimize(rf, want_x0.copy(), method=raw_method, jac=rg,
+                                      hess=rh if raw_method == "trust-constr" else None,
+                                      bounds=rb if (has_bounds and raw_method in BOUNDS_METHODS) else None,
                                       constraints=rcons if rcons else ())
     except Exception as ex:
         rec.noncomp["raw-scipy-raises:" + type(ex).__name__] += 1
@@ -541,6 +544,11 @@ def run(ctx, rec):
             n += 1
             prob = NG.draw_convex(rng, family=fam, constrained=constrained, bounds=bounds, sense=["min", "max"][n % 2])
             run_problem(prob, method, "explicit" if n % 3 == 0 else "default", rec, rng, seams)
+            if n % 5 == 2:
+                # every constraint a single-variable linear one, at least one active: whatever method "auto" picks must honour them
+                prob = NG.draw_convex(rng, family=fam, constrained=True, bounds=n % 2 == 0, sense=["min", "max"][n % 2], simple_constraints_only=True, scalars=False)
+                rec.cmp(1, "constraints:single-variable-only")
+                run_problem(prob, ["auto", "auto", "SLSQP", "trust-constr"][(n // 5) % 4], "default", rec, rng, seams)
             if n % 4 == 0:
                 run_param_history(rec, rng, seams, ["SLSQP", "trust-constr", "auto", "L-BFGS-B"][(n // 4 + ctx.shard) % 4])
             if n % 20 == 10:
